@@ -334,6 +334,151 @@ def sc_delegate_value_dies(rng):
     c.x = 5
 
 
+def sc_delegate_dropped_during_access(rng):
+    """Every callback a delegated read / write / delete can reach on the DELEGATE (default
+    method, property getter / setter, validator, post_setattr, static handler, listener) drops
+    the last long-lived reference to that delegate - the owner's own attribute is re-bound -
+    while the compiled core is still working on it."""
+    import itertools as _it
+    state = {}
+
+    def drop():
+        if state.get("armed"):
+            state["armed"] = False
+            o = state["owner"]
+            how = state["how"]
+            try:
+                if how == "rebind":
+                    o.target = state["mk"]()
+                elif how == "none":
+                    o.target = None
+                else:
+                    o.__dict__.pop("target", None)
+            except Exception:
+                pass
+            if state["gc"]:
+                gc.collect()
+
+    class DropV(TraitType):
+        default_value = 0
+
+        def validate(self, obj, name, value):
+            drop()
+            return value
+
+    class DropP(TraitType):
+        default_value = 0
+
+        def post_setattr(self, obj, name, value):
+            drop()
+
+    class TDefault(HasTraits):
+        value = Int()
+
+        def _value_default(self):
+            drop()
+            return 42
+
+    class TListDefault(HasTraits):
+        value = List(Int)
+
+        def _value_default(self):
+            drop()
+            return [1]
+
+    class TProp(HasTraits):
+        value = Property(Int)
+
+        def _get_value(self):
+            drop()
+            return 1
+
+        def _set_value(self, v):
+            drop()
+
+    class TValidator(HasTraits):
+        value = DropV()
+
+    class TPost(HasTraits):
+        value = DropP()
+
+    class THandler(HasTraits):
+        value = Int()
+
+        def _value_changed(self):
+            drop()
+
+    class TListener(HasTraits):
+        value = Int()
+
+    def mk_owner(route, listenable, supply="stored"):
+        if supply == "stored":
+            class Owner(HasTraits):
+                target = Instance(HasTraits)
+                value = route("target", listenable=listenable)
+            return Owner
+
+        # the delegate is not stored on the owner: a property hands it out, either a fresh
+        # temporary on every access (nothing else refers to it) or one kept in a side table
+        class OwnerP(HasTraits):
+            target = Property()
+            value = route("target", listenable=False)
+
+            def _get_target(self):
+                if supply == "temporary":
+                    return state["mk"]()
+                return state.setdefault("kept", state["mk"]())
+
+            def _set_target(self, v):
+                state["kept"] = v
+        return OwnerP
+    ops = [lambda o: o.value, lambda o: setattr(o, "value", 3), lambda o: delattr(o, "value"),
+           lambda o: o.trait_get("value"), lambda o: o.trait_set(value=4),
+           lambda o: (setattr(o, "value", 5), o.value), lambda o: o.trait("value"),
+           lambda o: o.validate_trait("value", 6)]
+    combos = list(_it.product([TDefault, TListDefault, TProp, TValidator, TPost, THandler, TListener],
+                              [DelegatesTo, PrototypedFrom], [True, False],
+                              ["none", "raw", "observe", "otc"], ["none", "otc", "observe"],
+                              ["rebind", "none", "pop"], range(len(ops))))
+    rng.shuffle(combos)
+    for ci, (T, route, listenable, tl, ol, how, opi) in enumerate(combos[:1500]):
+        supply = "stored" if ci % 3 else rng.choice(["temporary", "kept"])
+        Owner = mk_owner(route, listenable, supply)
+        state.pop("kept", None)
+        state.update(mk=T)
+        try:
+            owner = Owner(target=T()) if supply == "stored" else Owner()
+        except Exception:
+            continue
+        state.update(owner=owner, how=how, mk=T, gc=rng.random() < 0.2, armed=False)
+        try:
+            t = owner.target
+        except Exception:
+            continue
+        try:
+            if tl == "raw":
+                t._trait("value", 2)._notifiers(True).append(lambda *a: drop())
+            elif tl == "observe":
+                t.observe(lambda e: drop(), "value")
+            elif tl == "otc":
+                t.on_trait_change(lambda: drop(), "value")
+            if ol == "otc":
+                owner.on_trait_change(lambda: None, "value")
+            elif ol == "observe":
+                owner.observe(lambda e: None, "value")
+        except Exception:
+            pass
+        del t
+        state["armed"] = True
+        try:
+            ops[opi](owner)
+        except RecursionError:
+            pass
+        except Exception:
+            pass
+        state["armed"] = False
+
+
 def sc_nonstr_prefix(rng):
     class P(HasTraits):
         q_x = Int
@@ -590,6 +735,7 @@ SCENARIOS = [
     sc_delegate_value_dies, sc_nonstr_prefix, sc_nonstr_names, sc_property_pickle,
     sc_gc_threshold, sc_trait_defs_roundtrip, sc_items_event, sc_huge, sc_getattr_hooks,
     sc_observe_mutating_handlers, sc_default_attribute_error_warning, sc_anytrait_handlers_mutate,
+    sc_delegate_dropped_during_access,
 ]
 
 
